@@ -259,6 +259,62 @@ for _k in ("map_str_any", "map_ckey_any", "map_enumkey_any", "map_uuidkey_any", 
            "map_ckey_typed", "map_refkey_typed"):
     PIECES["Opt_" + _k] = (obj({"annotations": MEMBER_TYPES[_k]}), {"struct", "members"})
 
+# degenerate allow / deny lists, re-measured on the current tree: every shape that GENERATES (typed inner /
+# both-typed empty deny lists, empty allow lists, single values of every scalar / array / object type, a deny
+# list equal to the whole type, int-in-number ...).  Shapes typify rejects (untyped or outer-typed empty deny
+# list, `type: string, enum: []`, untyped `enum: []`, mixed-type deny, outer-typed null/array/object deny, not-const)
+# are not in the world.
+DEGENERATE = {
+    'DgDenyEmptyInnerInteger': {'not': {'enum': [], 'type': 'integer'}},
+    'DgDenyEmptyBothInteger': {'not': {'enum': [], 'type': 'integer'}, 'type': 'integer'},
+    'DgAllowEmptyInteger': {'type': 'integer', 'enum': []},
+    'DgDenyEmptyInnerNumber': {'not': {'enum': [], 'type': 'number'}},
+    'DgDenyEmptyBothNumber': {'not': {'enum': [], 'type': 'number'}, 'type': 'number'},
+    'DgAllowEmptyNumber': {'type': 'number', 'enum': []},
+    'DgDenyEmptyInnerString': {'not': {'enum': [], 'type': 'string'}},
+    'DgDenyEmptyBothString': {'not': {'enum': [], 'type': 'string'}, 'type': 'string'},
+    'DgDenyEmptyInnerBoolean': {'not': {'enum': [], 'type': 'boolean'}},
+    'DgDenyEmptyBothBoolean': {'not': {'enum': [], 'type': 'boolean'}, 'type': 'boolean'},
+    'DgAllowEmptyBoolean': {'type': 'boolean', 'enum': []},
+    'DgDenyEmptyInnerNull': {'not': {'enum': [], 'type': 'null'}},
+    'DgDenyEmptyBothNull': {'not': {'enum': [], 'type': 'null'}, 'type': 'null'},
+    'DgAllowEmptyNull': {'type': 'null', 'enum': []},
+    'DgDenyEmptyInnerArray': {'not': {'enum': [], 'type': 'array'}},
+    'DgDenyEmptyBothArray': {'not': {'enum': [], 'type': 'array'}, 'type': 'array'},
+    'DgAllowEmptyArray': {'type': 'array', 'enum': []},
+    'DgDenyEmptyInnerObject': {'not': {'enum': [], 'type': 'object'}},
+    'DgDenyEmptyBothObject': {'not': {'enum': [], 'type': 'object'}, 'type': 'object'},
+    'DgAllowEmptyObject': {'type': 'object', 'enum': []},
+    'DgAllowOneInteger': {'type': 'integer', 'enum': [5]},
+    'DgDenyOneInnerInteger': {'not': {'enum': [5], 'type': 'integer'}},
+    'DgDenyOneOuterInteger': {'not': {'enum': [5]}, 'type': 'integer'},
+    'DgAllowOneNumber': {'type': 'number', 'enum': [1.5]},
+    'DgDenyOneInnerNumber': {'not': {'enum': [1.5], 'type': 'number'}},
+    'DgDenyOneOuterNumber': {'not': {'enum': [1.5]}, 'type': 'number'},
+    'DgAllowOneString': {'type': 'string', 'enum': ['x']},
+    'DgDenyOneInnerString': {'not': {'enum': ['x'], 'type': 'string'}},
+    'DgDenyOneOuterString': {'not': {'enum': ['x']}, 'type': 'string'},
+    'DgAllowOneBoolean': {'type': 'boolean', 'enum': [True]},
+    'DgDenyOneInnerBoolean': {'not': {'enum': [True], 'type': 'boolean'}},
+    'DgDenyOneOuterBoolean': {'not': {'enum': [True]}, 'type': 'boolean'},
+    'DgAllowOneNull': {'type': 'null', 'enum': [None]},
+    'DgDenyOneInnerNull': {'not': {'enum': [None], 'type': 'null'}},
+    'DgAllowOneArray': {'type': 'array', 'enum': [[1]]},
+    'DgDenyOneInnerArray': {'not': {'enum': [[1]], 'type': 'array'}},
+    'DgAllowOneObject': {'type': 'object', 'enum': [{'a': 1}]},
+    'DgDenyOneInnerObject': {'not': {'enum': [{'a': 1}], 'type': 'object'}},
+    'DgDenyAllBoolInner': {'not': {'enum': [True, False], 'type': 'boolean'}},
+    'DgDenyAllBoolOuter': {'not': {'enum': [True, False]}, 'type': 'boolean'},
+    'DgAllowAllBool': {'type': 'boolean', 'enum': [True, False]},
+    'DgDenyIntInNumber': {'not': {'enum': [1]}, 'type': 'number'},
+    'DgDenyFloatInInteger': {'not': {'enum': [1.5]}, 'type': 'integer'},
+    'DgAllowUntypedOneInt': {'enum': [3]},
+    'DgConstInt': {'const': 3},
+    'DgConstNull': {'const': None},
+}
+for _n, _s in DEGENERATE.items():
+    PIECES[_n] = (_s, {"boundary", "degenerate", "constrained"})
+
 # user-requested derives that must compile on the given piece
 SAFE_PATCH = {
     "IntStruct": [["PartialEq"], ["PartialEq", "Eq"], ["PartialEq", "Eq", "Hash"],
@@ -431,6 +487,9 @@ def gen_cases(ctx):
                     {"settings": c.get("settings", {}), "steps": c["steps"]}))
     # 0b. newtypes / members / payloads over user types from conversions and replacements
     out += native_cases()
+    # 0c. every degenerate allow / deny list alone in a module (minimal witnesses)
+    for n in DEGENERATE:
+        out.append(({"src": "degenerate:" + n, "neg": False, "model_derivable": True}, case_of(doc_of([n]))))
     # 1. fixtures of the repository, under three settings
     fx = sorted(glob.glob(os.path.join(FIXTURE_DIR, "*.json")))
     for p in fx:
@@ -447,10 +506,13 @@ def gen_cases(ctx):
     # 2. every kind, default settings / builder / global PartialEq
     allp = list(PIECES)
     out.append(({"src": "kinds:default", "neg": False, "model_derivable": True}, case_of(doc_of(allp))))
+    # (quick: the degenerate allow/deny pieces are in kinds:default, alone in their own modules and in the random
+    # modules; the settings variants of the whole world leave them out)
+    core = allp if ctx.tier == "thorough" else [n for n in allp if "degenerate" not in PIECES[n][1]]
     out.append(({"src": "kinds:builder", "neg": False, "model_derivable": True},
-                case_of(doc_of(allp), {"struct_builder": True})))
+                case_of(doc_of(core), {"struct_builder": True})))
     out.append(({"src": "kinds:PartialEq", "neg": False, "model_derivable": True},
-                case_of(doc_of(allp), {"derives": ["PartialEq"]})))
+                case_of(doc_of(core), {"derives": ["PartialEq"]})))
     # the two further whole-world modules only in thorough (quick: the same settings occur in the random modules
     # and on the member / boundary pieces below)
     if ctx.tier == "thorough":
@@ -669,7 +731,7 @@ MODEL_HDR = tocoq.COQ_HEADER + "From Typify Require Import Algo.Emit.\n"
 
 
 SLICE = 8          # named entries per printed string
-SHARD_CHARS = 9000  # coqc's printer overflows its stack on strings of a few 10^4 characters
+SHARD_CHARS = 14000  # coqc's printer overflows its stack on strings of a few 10^4 characters
 
 
 def model_views(tag, gens):
@@ -791,6 +853,7 @@ SHAPE_PINS = [
     ("newtype_inner_def", '"type_space . id_to_entry . get (type_id) . unwrap ()"'),
     ("is_str_def", '"matches ! (inner_type . details , TypeEntryDetails :: String)"'),
     ("struct_derive_ops", "(@nil string)"),
+    ("newtype_other_ops", "(@nil string)"),
     ("assembly_ops", '["let derive_set . clone ()"; "extend extra_derives"; "extend type_derives"; "into_iter"]'),
 ]
 
